@@ -316,9 +316,9 @@ func c20Run(c *fw.Case, env *fw.Env) *fw.Obs {
 
 func init() {
 	fw.Register(&fw.Property{
-		ID:    "C20",
-		Level: "exploration",
-		Rule: "seeded Add/Flush/reopen programs over a small hash universe (few first bytes incl. 0x00/0xFF, few tails) x batch sizes x file/buffer backing; after every flush and reopen Has is compared with a Go map for EVERY hash of the universe and the raw file is checked for sorted entries and a consistent fan-out; distinct_nontrivial = distinct (universe,batch,backing,members,seed) programs with >=2 members and >=1 flush",
+		ID:          "C20",
+		Level:       "exploration",
+		Rule:        "seeded Add/Flush/reopen programs over a small hash universe (few first bytes incl. 0x00/0xFF, few tails) x batch sizes x file/buffer backing; after every flush and reopen Has is compared with a Go map for EVERY hash of the universe and the raw file is checked for sorted entries and a consistent fan-out; distinct_nontrivial = distinct (universe,batch,backing,members,seed) programs with >=2 members and >=1 flush",
 		Assumptions: []string{"callers pass a fresh 16-byte slice per Add (as RowCollector does)", "Len() equal to the model size is not demanded"},
 		Gen: func(tier string, seed int64) []fw.Case {
 			l := fw.NewCaseList("C20", tier, seed)
